@@ -133,6 +133,16 @@ class C11(Check):
         def write(real_rng=False):
             if real_rng:
                 patches.real_iv()
+                # the host program (or a test framework) may seed the global PRNGs: IVs must not come from them
+                import random
+
+                random.seed(20240229)
+                try:
+                    import numpy.random as npr
+
+                    npr.seed(20240229)
+                except Exception:
+                    pass
             try:
                 bio = io.BytesIO()
                 z = arch.open_write(bio, filters, pw, case["header"])
